@@ -12,7 +12,7 @@ use super::flows::{recv_body_flow, recv_response_flow_cfg};
 use crate::driver::{AnyFlow, ReqCfg};
 use crate::engine::{explore, guarded, hex, show, unhex, Limits, Report, Sys, Tier, Violation};
 
-pub const RULE: &str = "(a) explicit-state search over (flow fingerprint, unconsumed window, remaining budget): actions 'append symbol' for every symbol and 'call' with output sizes {0,1,large}; = ALL strings over the alphabet up to the bound in ALL segmentations; body decoders (chunked with boundary stop off/on, Content-Length: 3, close-delimited) over bytes {0,1,a,F,g,;,SP,CR,LF,0x80} up to length 5 (thorough 6); head parsers (try_read_100 on a POST+Expect flow, try_response on GET and HEAD flows, continuing into the body state) over 26 tokens {HTTP/1.1,HTTP/1.0,HTTP/2,SP,100,200,302,99,1000,OK,CR,LF,CRLF,:,comma,A,Content-Length,Transfer-Encoding,chunked,3,-1,Location,Connection,close,0x00,0xff} up to 3 (thorough 4) tokens. (b) 12 seed exchanges x every single fault (flip each bit of each byte, delete / duplicate each byte, insert each of {CR,LF,:,SP,;,comma,0x00,0xff} at each position, replace each number by {-1, 2^64, 21 digits, 17 hex digits, empty}, splice every prefix of seed A onto every suffix of seed B for 4 seed pairs) x schedules {single call, 1-byte arrivals} x output sizes {1, large} x requests {GET, HEAD, POST+Expect HTTP/1.1, POST+Expect HTTP/1.0 with Connection: close}; thorough: also all double faults (bit flip pairs excluded) on the 4 shortest seeds. (c) 129/200/1000 fields, 65536- and 70000-byte header names, 1 MiB value, 100 KiB reason, 40-digit Content-Length, 30-digit chunk size, five simultaneous close conditions; chunk-size lines (without / with extension) and trailer lines of 8..130 bytes carrying one 2-, 3- or 4-byte UTF-8 character or a lone 0xff at EVERY offset. distinct = distinct (entry point, final flow state class, error class) outcomes";
+pub const RULE: &str = "(a) explicit-state search over (flow fingerprint, unconsumed window, remaining budget): actions 'append symbol' for every symbol and 'call' with output sizes {0,1,large}; = ALL strings over the alphabet up to the bound in ALL segmentations; body decoders (chunked with boundary stop off/on, Content-Length: 3, close-delimited) over bytes {0,1,a,F,g,;,SP,CR,LF,0x80} up to length 5 (thorough 6); head parsers (try_read_100 on a POST+Expect flow, try_response on GET and HEAD flows, continuing into the body state) over 26 tokens {HTTP/1.1,HTTP/1.0,HTTP/2,SP,100,200,302,99,1000,OK,CR,LF,CRLF,:,comma,A,Content-Length,Transfer-Encoding,chunked,3,-1,Location,Connection,close,0x00,0xff} up to 3 (thorough 4) tokens. (b) 12 seed exchanges x every single fault (flip each bit of each byte, delete / duplicate each byte, insert each of {CR,LF,:,SP,;,comma,0x00,0xff} at each position, replace each number by {-1, 2^64, 21 digits, 17 hex digits, empty}, splice every prefix of seed A onto every suffix of seed B for 4 seed pairs) x schedules {single call, 1-byte arrivals} x output sizes {1, large} x requests {GET, HEAD, POST+Expect HTTP/1.1, POST+Expect HTTP/1.0 with Connection: close, POST+Expect whose caller gave up waiting and sent the body}; thorough: also all double faults (bit flip pairs excluded) on the 4 shortest seeds. (c) 129/200/1000 fields, 65536- and 70000-byte header names, 1 MiB value, 100 KiB reason, 40-digit Content-Length, 30-digit chunk size, five simultaneous close conditions; chunk-size lines (without / with extension) and trailer lines of 8..130 bytes carrying one 2-, 3- or 4-byte UTF-8 character or a lone 0xff at EVERY offset; family (c) is run with the library's logging off and again at level Trace. (d) deep inputs, each in a child process so that an abort is an observation: {100, 5000, 100000} x interim responses (100 Continue, bare 100, 103) ahead of a final response, as many one-byte chunks and trailers, as many empty lines after the status line, through all five request kinds. distinct = distinct (entry point, final flow state class, error class) outcomes";
 
 // ------------------------------------------------------------------------------------------
 // common oracle pieces
@@ -426,19 +426,30 @@ fn cheap_faults(seed: &[u8]) -> Vec<Vec<u8>> {
     out
 }
 
-const REQS: [&str; 4] = ["GET", "HEAD", "POST-expect-11", "POST-expect-10-close"];
+const REQS: [&str; 5] = ["GET", "HEAD", "POST-expect-11", "POST-expect-10-close", "POST-expect-gaveup"];
 
 fn start_flow(kind: &str) -> AnyFlow {
     let rc = match kind {
         "GET" => ReqCfg::new("GET", "1.1", "http://a.test/p"),
         "HEAD" => ReqCfg::new("HEAD", "1.1", "http://a.test/p"),
-        "POST-expect-11" => ReqCfg::new("POST", "1.1", "http://a.test/p").orig("content-length", "3").orig("expect", "100-continue"),
+        "POST-expect-11" | "POST-expect-gaveup" => ReqCfg::new("POST", "1.1", "http://a.test/p").orig("content-length", "3").orig("expect", "100-continue"),
         _ => ReqCfg::new("POST", "1.0", "http://a.test/p").orig("content-length", "3").orig("expect", "100-continue").orig("connection", "close"),
     };
     let f = rc.build_prepare().expect("prep");
     let mut f = f.proceed();
     crate::driver::write_whole_head(&mut f).expect("head");
-    AnyFlow::SendRequest(f).proceed().expect("proceed").expect("some")
+    let mut st = AnyFlow::SendRequest(f).proceed().expect("proceed").expect("some");
+    if kind == "POST-expect-gaveup" {
+        // the caller did not wait for the 100: body sent, the flow still tolerates one late 100
+        st = st.proceed().expect("give up").expect("some");
+        if let AnyFlow::SendBody(b) = &mut st {
+            let mut buf = [0u8; 64];
+            b.write(b"abc", &mut buf).expect("body");
+            b.write(&[], &mut buf).expect("finish");
+        }
+        st = st.proceed().expect("leave SendBody").expect("some");
+    }
+    st
 }
 
 /// Drive a flow over an arbitrary stream, tolerant of errors. Err = oracle failure.
@@ -733,10 +744,94 @@ fn run_c(rep: &mut Report) {
     rep.sample(json!({"family": "c", "shapes": ss.len(), "first_shapes": ss.iter().take(16).map(|x| x.0.clone()).collect::<Vec<_>>()}));
 }
 
+// ------------------------------------------------------------------------------------------
+// (d) deep inputs: shapes whose repetition count is chosen by the server and whose failure mode
+// may be an abort of the process (unbounded recursion, unbounded allocation). Each runs in a child.
+
+fn deep_streams() -> Vec<(String, Vec<u8>)> {
+    let mut v: Vec<(String, Vec<u8>)> = Vec::new();
+    for n in [100usize, 5_000, 100_000] {
+        for interim in [&b"HTTP/1.1 100 Continue\r\n\r\n"[..], &b"HTTP/1.1 100\r\n\r\n"[..], &b"HTTP/1.1 103 Early\r\n\r\n"[..]] {
+            let mut s = Vec::new();
+            for _ in 0..n {
+                s.extend_from_slice(interim);
+            }
+            s.extend_from_slice(b"HTTP/1.1 200 OK\r\nContent-Length: 2\r\n\r\nok");
+            v.push((format!("{} x {:?} then a final response", n, show(&interim[..12])), s));
+        }
+        let mut s = b"HTTP/1.1 200 OK\r\nTransfer-Encoding: chunked\r\n\r\n".to_vec();
+        for _ in 0..n {
+            s.extend_from_slice(b"1\r\nx\r\n");
+        }
+        s.extend_from_slice(b"0\r\n");
+        for i in 0..n.min(5_000) {
+            s.extend_from_slice(format!("T{}: v\r\n", i).as_bytes());
+        }
+        s.extend_from_slice(b"\r\n");
+        v.push((format!("{} one-byte chunks and trailers", n), s));
+        let mut s = b"HTTP/1.1 200 OK\r\n".to_vec();
+        s.extend(std::iter::repeat(&b"\r\n"[..]).take(n).flatten());
+        v.push((format!("status line followed by {} empty lines", n), s));
+    }
+    v
+}
+
+/// Child-process entry: one deep stream through every request kind (single call, large output).
+pub fn isolated(arg: &Value) -> Vec<(String, String)> {
+    let ss = deep_streams();
+    let i = arg["shape"].as_u64().unwrap_or(0) as usize;
+    let mut fails = Vec::new();
+    if arg["logging"].as_bool() == Some(true) {
+        crate::engine::logging(true);
+    }
+    if let Some((label, s)) = ss.get(i) {
+        for kind in REQS {
+            let r = match guarded(|| drive(kind, s, false, 4096)) {
+                Ok(r) => r,
+                Err(p) => Err((format!("C12:stream:panic-driver:{}", crate::engine::panic_site(&p)), p)),
+            };
+            if let Err((k, w)) = r {
+                fails.push((k, format!("{} [deep shape: {}, request {}]", w, label, kind)));
+            }
+        }
+    }
+    fails
+}
+
+fn run_d(rep: &mut Report) {
+    let n = deep_streams().len();
+    let res: Vec<(usize, Result<crate::engine::Isolated, String>)> = (0..n).into_par_iter().map(|i| (i, crate::engine::run_isolated("C12", &json!({"shape": i}), 120))).collect();
+    let labels: Vec<String> = deep_streams().into_iter().map(|x| x.0).collect();
+    for (i, r) in res {
+        rep.evaluations += 1;
+        rep.states += 1;
+        match r {
+            Err(e) => {
+                eprintln!("machinery: isolated run failed: {}", e);
+                std::process::exit(2);
+            }
+            Ok(crate::engine::Isolated::Done(fails)) => {
+                for (k, w) in fails {
+                    rep.violation(Violation { key: k, ord: 9_500_000 + i as u64, what: w, replay: json!({"kind": "d", "shape": i}) });
+                }
+            }
+            Ok(crate::engine::Isolated::Died(why)) => rep.violation(Violation { key: "C12:stream:process-abort".into(), ord: 9_500_000 + i as u64, what: format!("the process did not survive the input: {} [deep shape: {}]", why, labels[i]), replay: json!({"kind": "d", "shape": i}) }),
+        }
+    }
+    rep.extra("d_deep_shapes", json!(n));
+}
+
 pub fn run(tier: Tier) -> Report {
     let mut rep = Report::new();
     let t = std::time::Instant::now();
+    run_d(&mut rep);
+    rep.extra("wall_d_s", json!(t.elapsed().as_secs_f64()));
+    let t = std::time::Instant::now();
     run_c(&mut rep);
+    // (c) once more with the library's logging at level Trace (hex dumps of every buffer, debug! lines)
+    crate::engine::logging(true);
+    run_c(&mut rep);
+    crate::engine::logging(false);
     rep.extra("wall_c_s", json!(t.elapsed().as_secs_f64()));
     let t = std::time::Instant::now();
     run_b(tier, &mut rep);
@@ -753,6 +848,10 @@ pub fn replay(v: &Value) -> Result<Option<String>, String> {
             let s = unhex(v["stream"].as_str().ok_or("stream")?);
             Ok(drive(v["request"].as_str().ok_or("request")?, &s, v["one_byte"].as_bool().unwrap_or(false), v["out_len"].as_u64().unwrap_or(4096) as usize).err().map(|(k, w)| format!("[{}] {}", k, w)))
         }
+        Some("d") => match crate::engine::run_isolated("C12", &json!({"shape": v["shape"].as_u64().unwrap_or(0)}), 120)? {
+            crate::engine::Isolated::Done(f) => Ok(f.into_iter().next().map(|(k, w)| format!("[{}] {}", k, w))),
+            crate::engine::Isolated::Died(why) => Ok(Some(format!("[C12:stream:process-abort] {}", why))),
+        },
         Some("c") => {
             let ss = stress_streams();
             let (_, s) = ss.get(v["shape"].as_u64().ok_or("shape")? as usize).ok_or("shape range")?;
